@@ -1,7 +1,7 @@
 (* Result type of fuelled / partial model functions.
    Crash  = the C code would dereference NULL / a dangling pointer or index outside a buffer.
    Fuel   = the explicit recursion fuel ran out (theorems show it cannot for the stated fuel). *)
-From Coq Require Import List.
+From Coq Require Import List BinNums.
 Inductive res (A : Type) : Type := Ok (a : A) | Crash | Fuel.
 Arguments Ok {A} a. Arguments Crash {A}. Arguments Fuel {A}.
 Definition bind {A B} (r : res A) (f : A -> res B) : res B :=
@@ -9,3 +9,5 @@ Definition bind {A B} (r : res A) (f : A -> res B) : res B :=
 Lemma bind_ok {A B} (r : res A) (f : A -> res B) b : bind r f = Ok b -> exists a, r = Ok a /\ f a = Ok b.
 Proof. destruct r; simpl; intros H; try discriminate. eauto. Qed.
 Definition is_ok {A} (r : res A) : bool := match r with Ok _ => true | _ => false end.
+(* extracted into every model file so that all four number types are always present (ocaml/util.ml converts them) *)
+Definition num_anchor (a : nat) (b : BinNums.positive) (c : BinNums.N) (d : BinNums.Z) : unit := tt.
